@@ -43,6 +43,8 @@ type Case struct {
 	Pad int `json:"stdin_padding,omitempty"`
 	// Chunks > 1: stdin is written in that many pieces with a short pause between them.
 	Chunks int `json:"stdin_chunks,omitempty"`
+	// StdinFile: standard input is redirected from a regular file (cmd < doc.json) instead of a pipe.
+	StdinFile bool `json:"stdin_from_file,omitempty"`
 }
 
 func (c Case) stdin() string {
@@ -99,6 +101,8 @@ func drawFor(binary string) func(t *rapid.T) Case {
 		}
 		if gen.OneIn(t, 10, "chunked") {
 			c.Chunks = gen.Uniform(t, 2, 4, "chunks")
+		} else if gen.OneIn(t, 5, "stdinfile") {
+			c.StdinFile = true
 		}
 		g := gen.NewOpGen(true).Calm()
 		if binary == "legacy" {
@@ -291,7 +295,18 @@ func runCLI(c Case) (result, error) {
 	ctx, cancel := context.WithTimeout(context.Background(), 60*time.Second)
 	defer cancel()
 	cmd := exec.CommandContext(ctx, bin, args...)
-	if c.Chunks > 1 {
+	if c.StdinFile {
+		sp := filepath.Join(dir, "stdin.json")
+		if err := os.WriteFile(sp, []byte(c.stdin()), 0o644); err != nil {
+			return result{}, err
+		}
+		sf, err := os.Open(sp)
+		if err != nil {
+			return result{}, err
+		}
+		defer sf.Close()
+		cmd.Stdin = sf // an *os.File is handed to the child as it is: no pipe in between
+	} else if c.Chunks > 1 {
 		cmd.Stdin = &chunkReader{data: []byte(c.stdin()), n: c.Chunks}
 	} else {
 		cmd.Stdin = strings.NewReader(c.stdin())
@@ -334,7 +349,7 @@ func check(c Case) ev.Verdict {
 	if err != nil {
 		return ev.Excluded("could not run the command: "+err.Error(), "infrastructure")
 	}
-	v := ev.Verdict{Classes: []string{c.Binary, fmt.Sprintf("files=%d", len(c.Files))}}
+	v := ev.Verdict{Classes: []string{c.Binary, fmt.Sprintf("files=%d", len(c.Files)), fmt.Sprintf("stdin-from-file=%v", c.StdinFile)}}
 	// non-trivial: the order of >=2 files matters, or a failure at file index >=1
 	if want.ok && len(c.Files) >= 2 {
 		rev := make([]int, len(order))
